@@ -11,6 +11,8 @@ MC_WORLD = {
     "thorough": [("MCWorld1.cfg", "1 world, 2 components, <=4 value creations, batches 0..2"),
                  ("MCWorld2.cfg", "2 worlds (clone / clone_from / serde between them), 2 components, <=2 value creations, batches 0..2")],
 }
+MC_PAR = [("ParSplit.cfg", "split algebra of the zipped column producers (slice_mut, RepeatNone, slice) over 5 rows, every split tree"),
+          ("ParSplitBug.cfg", "SELF-TEST: RepeatNone.split_at with the wrong right-hand count must lose a row")]
 MC_INV = {"C01": "Inv_C01", "C02": "Inv_C02", "C13": "Inv_C13", "C06": "Inv_C06", "C10": "Inv_C01"}
 
 def run_mc_world(tier):
@@ -43,7 +45,7 @@ WORLD_NOTES = {
     "C13": ("model_checking", "MCWorld Inv_C13 exhaustively + StoreInv evaluated by TLC on the hook's dump of every live world after every event"),
     "C15": ("exploration", "resource addressing: get_mut / view_resources / query resource views in 14 subset-order-mutability variants, plus frame checks on every entity operation, clone and serde"),
     "C03": ("exploration", "a generated family of 132 queries (every view kind alone and pairwise, view order, identifier view, nested filters incl. views used as filters, World::entry queries, every super-view/sub-view pairing of query-time Entries, iteration combined with entry views) run against every world state the histories pass through; TLC evaluates the query on the reference map and compares result set/multiset, per-item values and tokens, Option-ness, writes, and size_hint brackets"),
-    "C09": ("exploration", "par_query over the parallel part of the query family on worlds with many/empty/short/long tables (up to ~80 rows) under rayon pools of 1,2,3,4,8,16 threads; TLC compares the multiset of results with the reference map's answer, the writes with the sequential semantics, and requires the addresses of mutably yielded values to be pairwise distinct"),
+    "C09": ("model_checking", "spec/ParSplit.tla (every split tree of the zipped column producers yields every row exactly once; the wrong RepeatNone split is a checked self-test) + par_query over the parallel part of the query family on worlds with many/empty/short/long tables (up to ~80 rows) under rayon pools of 1,2,3,4,8,16 threads; TLC compares the multiset of results with the reference map's answer, the writes with the sequential semantics, and requires the addresses of mutably yielded values to be pairwise distinct"),
     "C16": ("exploration", "== logged for every ordered pair of live worlds after every event; TLC checks reflexivity, symmetry, eq => same content, and eq after clone / serde"),
 }
 
@@ -96,6 +98,19 @@ def run_world_prop(prop, tier, seed, replay):
         mc = []
     else:
         mc = run_mc_world(tier) if prop in MC_INV else []
+        if prop == "C09":
+            key = content_key()
+            mc = cache_get("mcpar", key) or []
+            if not mc:
+                for cfg, desc in MC_PAR:
+                    r = tlc_mc("MCParSplit.tla", cfg, os.path.join(WORK, "mc", cfg + ".meta"), workers=4, timeout=900)
+                    mc.append({"cfg": cfg, "desc": desc, "ok": r["ok"], "generated": r["generated"], "distinct": r["distinct"],
+                               "violated": r["violated"], "log": "-", "wall": r["wall"]})
+                cache_put("mcpar", key, mc)
+            bug = [m for m in mc if m["cfg"] == "ParSplitBug.cfg"][0]
+            if bug["ok"] or bug["violated"] != "EveryRowOnce":
+                raise ToolError("self-test failed: the buggy RepeatNone split does not violate EveryRowOnce")
+            mc = [m for m in mc if m["cfg"] != "ParSplitBug.cfg"]
         res = pipe_world.run_world(tier, seed)
     harness = [f for f in res["fails"] if f["prop"] == "HARNESS"]
     if harness:
@@ -110,7 +125,7 @@ def run_world_prop(prop, tier, seed, replay):
     violations = [{"what": "%s (line %d of %s, op %s)" % (f["name"], f["line"], f["trace"], f["op"]),
                    "replay": f["replay"]} for f in viol]
     for m in mc:
-        if not m["ok"] and (m["violated"] in (MC_INV.get(prop), None)):
+        if not m["ok"] and (m["violated"] in (MC_INV.get(prop), None) or prop == "C09"):
             violations.append({"what": "model: %s violated in %s (%s)" % (m["violated"], m["cfg"], m["desc"]),
                                "replay": m["log"]})
     level, text = WORLD_NOTES[prop]
@@ -134,7 +149,7 @@ def run_world_prop(prop, tier, seed, replay):
         cov["states"] = sum(m["distinct"] for m in mc)
         cov["transitions"] = sum(m["generated"] for m in mc)
         cov["model_instances"] = [{k: m[k] for k in ("cfg", "desc", "distinct", "generated", "ok")} for m in mc]
-        cov["model_invariant"] = MC_INV[prop]
+        cov["model_invariant"] = MC_INV.get(prop, "EveryRowOnce / NeverTwice / SlicesAgree")
     assumptions = [
         "the harness executes and logs faithfully (worlddrv); the brood_verif dump hook is read-only",
         "bounded: histories of the stated length, <=3 live worlds, <=~12 live entities per world",
@@ -230,6 +245,18 @@ def run_fault_prop(prop, tier, seed, replay):
     if replay:
         only = json.load(open(replay))["scenario"]
     res = pipe_fault.run_fault(tier, seed, only)
+    # design-level model of the per-column loops (spec/MCPanic.tla): the pinned design must violate
+    # PanicSafe (it is the model-level image of the known findings), the guarded design must satisfy it
+    key = content_key()
+    mcp = cache_get("mcpanic", key)
+    if not mcp:
+        a = tlc_mc("MCPanic.tla", "MCPanic.cfg", os.path.join(WORK, "mc", "mcpanic.meta"), workers=4, timeout=900)
+        b = tlc_mc("MCPanic.tla", "MCPanicGuarded.cfg", os.path.join(WORK, "mc", "mcpanicg.meta"), workers=4, timeout=900)
+        mcp = {"pinned_violates": (not a["ok"]) and a["violated"] == "PanicSafe", "guarded_ok": b["ok"],
+               "guarded_states": b["distinct"], "guarded_transitions": b["generated"]}
+        cache_put("mcpanic", key, mcp)
+    if not mcp["guarded_ok"]:
+        raise ToolError("MCPanic: the guarded design does not satisfy PanicSafe (model error)")
     kn = [k for k in load_known().get("known", []) if k["property"] == prop]
     violations, hits = [], []
     for f in res["fails"]:
@@ -249,6 +276,10 @@ def run_fault_prop(prop, tier, seed, replay):
         "callbacks_per_operation": res["ops"],
         "exhaustive": True,
         "failing_signatures": sorted({"%s/%s" % (f["op"], f["kind"]) for f in res["fails"]}),
+        "design_model": {"spec": "spec/MCPanic.tla (3 columns x 3 rows, panic at every call-back of remove / clear)",
+                         "pinned_design_violates_PanicSafe": mcp["pinned_violates"],
+                         "guarded_design_satisfies_PanicSafe": mcp["guarded_ok"],
+                         "guarded_states": mcp["guarded_states"]},
     }
     finish(prop, tier, seed, "fault_enumeration", cov, violations, t0,
            ["one panic per scenario; the quarantining allocator turns double frees and stale reads into data instead of crashes",
